@@ -36,6 +36,9 @@ pub struct Cfg {
     /// shadow module under the same qualifier (the later import wins); only for checks that do not rename or
     /// move import statements
     pub shadow_pct: u32,
+    /// one case in this many (those with index 1 modulo it) gets rec binders named like a declaration or parameter
+    /// that the same statement uses in front of the `rec` term (applied by `gen_wt_case`)
+    pub rec_shadow_every: u64,
 }
 
 impl Cfg {
@@ -71,6 +74,7 @@ impl Default for Cfg {
             spread_params: false,
             twin_pct: 15,
             shadow_pct: 0,
+            rec_shadow_every: 3,
         }
     }
 }
